@@ -41,7 +41,7 @@ impl Prop for C09 {
             let gap = match gapmode { 0 => r.usize(slide + 1), 1 => r.usize(4), 2 => r.usize(3 * (width + slide)), 3 => if r.chance(1, 5) { 0 } else { r.usize(slide + 1) }, _ => if r.chance(1, 6) { width * 3 + r.usize(50) } else { r.usize(2) } };
             items.push((if dup { r.below(5) as u32 } else { k as u32 }, gap));
         }
-        let channel = cfg.chance(1, 12);
+        let channel = cfg.chance(1, 6);
         WinCase { hash_seed: Rng::sub(seed, "hash").next(), width, slide, start: r.usize(6), items, non_empty_strategy: cfg.chance(1, 6), channel, shuttle_seed: Rng::sub(seed, "shuttle").next(), pct: cfg.chance(1, 2), prob_mask: if cfg.chance(1, 4) { r.next() } else { 0 } }
     }
     fn exec(&self, c: &WinCase, ctx: &mut Ctx) -> Option<Violation> {
